@@ -83,6 +83,8 @@ structure TI (cfg : Cfg) (sh : Shared) (i : Nat) (th : Thread) : Prop where
   retSpec : ∀ st, th.result = some st → retOK th.kind th.pc st = true
   closer : th.kind = .closer → CloserInv cfg sh th
   werr : th.err = true → th.kind.isWriter = true → 2 ≤ th.pc
+  retClosed : th.kind.isRequester = true → th.result.isSome = true → th.pc ≤ 3 →
+    evalFlag sh th.kind th.kind.waitFlag = true
 
 def closerPending (c : Thread) : Prop := c.kind = .closer ∧ c.result = none ∧ 2 ≤ c.pc ∧ c.pc ≤ 7
 
